@@ -882,8 +882,13 @@ META = {
              "ones are discarded and counted.  Domain restrictions in the theorems: shapes >= 1; axis-aligned single row/column needs "
              "the CRS coordinate (GeoTransform); shear below the 1e-10 is_affine_st tolerance is dropped by the code, the round trip is "
              "stated for exactly axis-aligned or clearly rotated grids; resolution_from_affine of a rotated GeoTransform is modelled only "
-             "where the square root is rational; set.pop() among several distinct CRS candidates is modelled as 'first'.  Not proved: "
-             "pixel values of the reprojection (rasterio/dask oracle), compute_output_geobox (how=CRS; property C11), GCP polynomial fit."),
+             "where the square root is rational; set.pop() among several distinct CRS candidates is modelled as 'first'; Dataset theorem: "
+             "pass-through variables must not bring coordinates/dimensions named like the destination's.  Generator exclusions "
+             "(counted, documented in docs/notes/C09.md): on dask-backed arrays slices with a negative step and start < -n (dask "
+             "2026.8 mis-normalises them, upstream); dask-backed reprojection into a grid with both resolutions negative "
+             "(GeoBox.footprint buffer sign, reported for C12/C13); how=CRS destinations have non-dyadic coefficients, only "
+             "shape/CRS/attributes are compared there.  Not proved: pixel values of the reprojection (rasterio/dask oracle), "
+             "compute_output_geobox (how=CRS; property C11), GCP polynomial fit, binary64 rounding."),
     "technique": "Coq proof over hand-written Gallina model + snapshot correspondence (vm_compute) + exact-Fraction predicates",
     "design_ref": "DESIGN.md section 5, C09; section 6 F9",
 }
